@@ -184,13 +184,24 @@ func runCheck(prop, repo, verifDir, tier, only string, workers int, verbose, noE
 			pairs = append(pairs, p)
 		}
 	}
-	if len(keys) == 0 && len(pairs) == 0 {
+	var lemmas []*Axiom
+	for _, l := range cs.Lemmas {
+		if only == "" && (prop == "all" || l.Prop == prop) {
+			lemmas = append(lemmas, l)
+		}
+	}
+	if len(keys) == 0 && len(pairs) == 0 && len(lemmas) == 0 {
 		fmt.Printf("ERROR: no functions under contract for %s\n", prop)
 		return 2
 	}
 	var runs []*FuncRun
 	var allObs []*Obligation
 	relAlias := [][2]string{{"lists_Element_T_", "RelElement"}, {"list_Element", "RelElement"}, {"lists_List_T_", "RelList"}, {"list_List", "RelList"}, {"lists_Ring_T_", "RelRing"}, {"ring_Ring", "RelRing"}}
+	for _, l := range lemmas {
+		r := v.VerifyLemma(l)
+		runs = append(runs, r)
+		allObs = append(allObs, r.Obs...)
+	}
 	for _, p := range pairs {
 		r := v.VerifyPair(p.Fork, p.Orig, relAlias)
 		runs = append(runs, r)
